@@ -173,12 +173,16 @@ def canary_check(unit, seed, tier, repo):
                     gg.map.insert(j + 1, dict(kind='clause', fn='lemma:' + m.group(1), clause='lemma:%s.canary' % m.group(1), tags=[], role='canary'))
                     i = j + 1
             i += 1
-    r = unitrun.run_unit(unit, repo=repo, canary=set(c for c in chosen if not c.startswith('lemma:')), suffix='_canary', max_rounds=1,
+    r = unitrun.run_unit(unit, repo=repo, canary=set(c for c in chosen if not c.startswith('lemma:')), suffix='_canary', max_rounds=4,
                          rlimit=config.UNIT_RLIMIT.get(unit, 40), post=plant)
     caught = sorted(set(f['fn'] for f in r.failures if f['kind'] == 'canary'))
     chosen = [c for c in chosen if c not in (getattr(r, 'demoted', None) or {})]
-    return dict(unit=unit, planted=len(chosen), caught=len(caught), ok=set(caught) == set(chosen),
-                fns=chosen, missed=sorted(set(chosen) - set(caught)))
+    # the canary tests for contradictory preconditions on a tree where everything verifies; if the generated file
+    # did not even compile (proof script that no longer fits, construct outside the subset) Verus never got to the
+    # canaries: that is inconclusive, not vacuity -- and the main run reports the real problem
+    inconclusive = any(u.startswith(('tool/compile error', 'round-trip', 'extraction')) for u in r.undecided)
+    return dict(unit=unit, planted=len(chosen), caught=len(caught), ok=(set(caught) == set(chosen)) or inconclusive,
+                fns=chosen, missed=sorted(set(chosen) - set(caught)), inconclusive=inconclusive)
 
 
 ALL_UNITS = ['conn', 'lemmas', 'oneshot', 'request', 'client', 'response', 'router', 'headers', 'server']
